@@ -98,4 +98,13 @@ template size_t sl::dummy_hash<br::muldiv>(size_t);
    {"tu": PRE + SPLITSET_TU, "filter": "parent_bucket", "flags": ["-fno-access-control"], "functions": [f("parent_bucket", "parent_bucket")]},
    {"tu": PRE + SPLITSET_TU, "filter": "SplitListSet", "flags": ["-fno-access-control"], "functions": [f("bucket_no", "bucket_no")]},
   ]},
+ {"module": "CdsVerif.Gen.RingBuffer", "namespace": "CdsVerif.Gen.RingBuffer",
+  "units": [
+   {"tu": PRE + """#include <cds/container/weak_ringbuffer.h>
+typedef cds::container::WeakRingBuffer<void> vrb;
+size_t verif_use( size_t n ) { return vrb::calc_real_size( n ) + vrb::make_tail( n ) + vrb::untail( n ) + ( vrb::is_tail( n ) ? 1 : 0 ); }
+""", "filter": "WeakRingBuffer", "flags": ["-fno-access-control"], "functions": [
+     f("calc_real_size", "calc_real_size"), f("is_tail", "is_tail"), f("make_tail", "make_tail"), f("untail", "untail"),
+   ]},
+  ]},
 ]
